@@ -88,7 +88,7 @@ def run(ctx):
         own = fn.param_index("radix")
         if v in (2, 8, 10, 16):
             r4.ok("%s -> %s(radix = %d)" % (fn.path, tgt.path, v), fn, t.get("line"))
-        elif own is not None and common.place_local(a) is not None and _copy_of_param(fn, common.place_local(a), own):
+        elif own is not None and common.place_local(a) is not None and common.copy_of_param(fn, common.place_local(a), own):
             r4.ok("%s -> %s(radix = own parameter)" % (fn.path, tgt.path), fn, t.get("line"))
         else:
             r4.violation(fn.path, "radix-arg->%s" % tgt.path,
@@ -121,26 +121,6 @@ def run(ctx):
 
     if ctx.tier == "thorough":
         thorough(ctx, db, lexpr, surf)
-
-
-def _copy_of_param(fn, l, param):
-    if l == param:
-        return True
-    defs = common.defs_of(fn)
-    seen = 0
-    while seen < 5:
-        ds = defs.get(l, [])
-        if len(ds) != 1 or ds[0][1] == "term":
-            return False
-        rv = ds[0][2]
-        if rv["k"] == "use" and rv["op"].get("c") in ("copy", "move") and not rv["op"]["pl"]["p"]:
-            l = rv["op"]["pl"]["l"]
-            if l == param:
-                return True
-            seen += 1
-            continue
-        return False
-    return False
 
 
 def thorough(ctx, db, lexpr, surf):
